@@ -6,9 +6,12 @@ Real code (public API only):
       .add(y_true, y_pred, y_prob) -> batch _ThresholdedConfusionMatrix      .merge(other)     .result() -> dict
       public arrays: .thresholds, .confusion_matrix.{thresholds, tp_trues, tp_preds, p_preds}; int: .confusion_matrix.p_trues
   (further classes are registered in ADAPTERS below)
+  ml_metrics._src.aggregates.classification.ConfusionMatrixAggFn(...)  .create_state / .update_state / .merge_states / .get_result
+      public arrays of a state: .tp, .tn, .fp, .fn
 Model: lean/MlModel/Model/Agg/HeapObs.lean (populations with returned values and caller writes),
-  Model/Agg/ThrHeap.lean (ThresholdedRetrieval over buffer cells); driver lean/Driver/AggObs.lean ("aggobs");
-  theorems lean/MlModel/Properties/C11/RetrievalThrHeap.lean.
+  Model/Agg/ThrHeap.lean (ThresholdedRetrieval over buffer cells), Model/Agg/CmStateHeap.lean (confusion-matrix states);
+  driver lean/Driver/AggObs.lean ("aggobs"); theorems lean/MlModel/Properties/C11/RetrievalThrHeap.lean,
+  ClassificationStateHeap.lean.
 
 One case = a program over numbered accumulators and the list `outs` of every value the caller was handed:
   {"op":"make"} {"op":"add","acc":i,"batch":..} {"op":"merge","acc":i,"other":j} {"op":"result","acc":i}
@@ -69,8 +72,18 @@ class ThrAdapter:
     return [yt, yp, pr]
 
   @staticmethod
-  def add(acc, args):
-    return acc.add(*args)
+  def do_add(case, accs, i, args):
+    cm = accs[i].add(*args)
+    # (private arrays, exposed arrays) of the batch object `add` returned
+    return [cm.tp_trues, cm.tp_preds, cm.p_preds], [cm.thresholds]
+
+  @staticmethod
+  def do_merge(case, accs, i, j):
+    accs[i].merge(accs[j])
+
+  @staticmethod
+  def do_result(case, accs, i):
+    return ThrAdapter.result_out(case, accs[i].result())
 
   @staticmethod
   def pub(acc):
@@ -80,11 +93,6 @@ class ThrAdapter:
   @staticmethod
   def scalars(acc):
     return [int(acc.confusion_matrix.p_trues)]
-
-  @staticmethod
-  def add_out(case, cm):
-    """(private arrays, exposed arrays) of the batch object `add` returned."""
-    return [cm.tp_trues, cm.tp_preds, cm.p_preds], [cm.thresholds]
 
   @staticmethod
   def result_out(case, res):
@@ -109,6 +117,20 @@ class ThrAdapter:
                 prog=case['prog'])
 
   # ---- generators
+  class Sim:
+    """number of private arrays of the values the operations return"""
+    def __init__(self, cfg):
+      self.n_res = sum(1 for _, t in cfg['metrics'] if t is None)
+    def make(self): pass
+    def add(self, i, ok=True): return 3 if ok else 0
+    def merge(self, i, j): pass
+    def result(self, i): return self.n_res
+
+  @staticmethod
+  def fixed_cfg():
+    return dict(thresholds=[{'n': 0, 'd': 1}, {'n': 1, 'd': 2}],
+                metrics=[['precision', None], ['recall', {'n': 1, 'd': 4}], ['f1_score', None]])
+
   @staticmethod
   def gen_cfg(rng):
     ts = sorted({Fraction(rng.randrange(0, 8), 8) for _ in range(rng.randrange(1, 4))})
@@ -140,7 +162,113 @@ class ThrAdapter:
     return rows
 
 
-ADAPTERS = {a.name: a for a in (ThrAdapter,)}
+class CmStateAdapter:
+  """ConfusionMatrixAggFn through the AggregateFn state API: a slot is a state variable of the caller,
+  add = `s[i] = fn.update_state(s[i], y_true, y_pred)` (the previous state object stays with the caller = returned value),
+  merge = `s[i] = fn.merge_states([s[i], s[j]])`, result = `fn.get_result(s[i])`."""
+  name = 'cmstate'
+  CLASSES = [0, 1, 2]
+
+  @staticmethod
+  def fn(case):
+    from ml_metrics._src.aggregates import classification as C
+    if case['mode'] == 'binary':
+      return C.ConfusionMatrixAggFn(metrics=['precision', 'recall', 'accuracy'], input_type='binary', pos_label=1)
+    return C.ConfusionMatrixAggFn(metrics=['precision', 'recall', 'accuracy'], input_type='multiclass',
+                                  average=case['mode'], vocab={c: c for c in CmStateAdapter.CLASSES})
+
+  @staticmethod
+  def make(case):
+    return CmStateAdapter.fn(case).create_state()
+
+  @staticmethod
+  def batch_args(batch):
+    import numpy as np
+    return [np.asarray(batch['yt'], dtype=int), np.asarray(batch['yp'], dtype=int)]
+
+  @staticmethod
+  def arrays(st):
+    return [] if st is None else [st.tp, st.tn, st.fp, st.fn]
+
+  @staticmethod
+  def do_add(case, accs, i, args):
+    old = accs[i]
+    accs[i] = CmStateAdapter.fn(case).update_state(old, *args)
+    return CmStateAdapter.arrays(old), []
+
+  @staticmethod
+  def do_merge(case, accs, i, j):
+    accs[i] = CmStateAdapter.fn(case).merge_states([accs[i], accs[j]])
+
+  @staticmethod
+  def do_result(case, accs, i):
+    if accs[i] is not None:
+      CmStateAdapter.fn(case).get_result(accs[i])
+    return [], []
+
+  @staticmethod
+  def pub(st):
+    return CmStateAdapter.arrays(st)
+
+  @staticmethod
+  def scalars(st):
+    return []
+
+  @staticmethod
+  def reading(case, st):
+    import numpy as np
+    if st is None:
+      return 'none'
+    r = CmStateAdapter.fn(case).get_result(st)
+    return {str(getattr(k, 'value', k)): canon(np.asarray(v, dtype=float)) for k, v in r.items()}
+
+  @staticmethod
+  def counts(case, batch):
+    """the four count arrays of a batch by the textbook definition (independent of the code)."""
+    yt, yp = batch['yt'], batch['yp']
+    per = []
+    for c in ([1] if case['mode'] == 'binary' else CmStateAdapter.CLASSES):
+      tp = sum(1 for t, p in zip(yt, yp) if t == c and p == c)
+      fp = sum(1 for t, p in zip(yt, yp) if t != c and p == c)
+      fn = sum(1 for t, p in zip(yt, yp) if t == c and p != c)
+      per.append((tp, len(yt) - tp - fp - fn, fp, fn))
+    if case['mode'] == 'micro':
+      per = [tuple(sum(x[k] for x in per) for k in range(4))]
+    return [[x[k] for x in per] for k in range(4)]
+
+  @staticmethod
+  def request(case):
+    prog = [dict(op, batch={'cm': CmStateAdapter.counts(case, op['batch'])}) if op['op'] == 'add' else op
+            for op in case['prog']]
+    return dict(model='aggobs', cls='cmstate', prog=prog)
+
+  class Sim:
+    def __init__(self, cfg):
+      self.live = []
+    def make(self): self.live.append(False)
+    def add(self, i, ok=True):
+      n = 4 if self.live[i] else 0
+      self.live[i] = True
+      return n
+    def merge(self, i, j): self.live[i] = self.live[i] or self.live[j]
+    def result(self, i): return 0
+
+  @staticmethod
+  def fixed_cfg():
+    return dict(mode='macro')
+
+  @staticmethod
+  def gen_cfg(rng):
+    return dict(mode=rng.choice(['binary', 'macro', 'micro']))
+
+  @staticmethod
+  def gen_batch(rng, cfg, malformed=False):
+    n = rng.choice([1, 2, 3, 4])
+    labs = [0, 1] if cfg['mode'] == 'binary' else CmStateAdapter.CLASSES
+    return {'yt': [rng.choice(labs) for _ in range(n)], 'yp': [rng.choice(labs) for _ in range(n)]}
+
+
+ADAPTERS = {a.name: a for a in (ThrAdapter, CmStateAdapter)}
 
 
 # ============================================================================ real code
@@ -195,16 +323,16 @@ def run_impl(case):
         args = ad.batch_args(op['batch'])
         before = copy.deepcopy(args)
         try:
-          outs.append(ad.add_out(case, ad.add(accs[op['acc']], args)))
+          outs.append(ad.do_add(case, accs, op['acc'], args))
         except Exception:
           outs.append(([], []))
           raise
         finally:
           inputs_ok = deep_close(canon(before), canon(args))
       elif k == 'merge':
-        accs[op['acc']].merge(accs[op['other']])
+        ad.do_merge(case, accs, op['acc'], op['other'])
       elif k == 'result':
-        outs.append(ad.result_out(case, accs[op['acc']].result()))
+        outs.append(ad.do_result(case, accs, op['acc']))
       elif k == 'poke':
         outs[op['out']][0][op['arr']][...] = op['val']
       else:
@@ -221,7 +349,7 @@ def run_impl(case):
       arrays += priv + exp
     obs.append({
         'classes': _classes(arrays), 'shape': shape,
-        'vals': [canon(np.asarray(a, dtype=float)) for a in arrays],
+        'vals': [canon(np.asarray(a, dtype=float).reshape(-1)) for a in arrays],
         'scalars': [canon(ad.scalars(a)) for a in accs],
         'err': err,
         # for the oracle only (not compared with the model):
@@ -313,81 +441,94 @@ def nontrivial(case, obs):
 
 
 def finding(case, what):
-  return None
+  return None      # F-C11-cm-merge-first-none is fixed: nothing is suppressed
 
 
 # ============================================================================ generators
 
-def _prog_ok(prog):
-  """every index refers to something that exists; pokes name a private array (checked by the caller of gen)."""
-  return True
-
-
 def _random_prog(rng, ad, cfg, n_ops, malformed):
   prog, n_acc, outs = [], 0, []        # outs: number of private arrays of each returned value
-  n_metric_arrays = sum(1 for _, t in cfg['metrics'] if t is None) if ad is ThrAdapter else 0
+  sim = ad.Sim(cfg)
   for _ in range(rng.randrange(2, 4)):
     prog.append({'op': 'make'})
+    sim.make()
     n_acc += 1
   bad_at = rng.randrange(n_ops) if malformed else -1
   for t in range(n_ops):
     c = rng.random()
     if t == bad_at:
-      prog.append({'op': 'add', 'acc': rng.randrange(n_acc), 'batch': ad.gen_batch(rng, cfg, malformed=True)})
-      outs.append(0)
+      i = rng.randrange(n_acc)
+      prog.append({'op': 'add', 'acc': i, 'batch': ad.gen_batch(rng, cfg, malformed=True)})
+      outs.append(sim.add(i, ok=False))
     elif c < 0.3:
-      prog.append({'op': 'add', 'acc': rng.randrange(n_acc), 'batch': ad.gen_batch(rng, cfg)})
-      outs.append(3)
+      i = rng.randrange(n_acc)
+      prog.append({'op': 'add', 'acc': i, 'batch': ad.gen_batch(rng, cfg)})
+      outs.append(sim.add(i))
     elif c < 0.55:
       i = rng.randrange(n_acc)
       j = rng.choice([x for x in range(n_acc) if x != i])
       prog.append({'op': 'merge', 'acc': i, 'other': j})
+      sim.merge(i, j)
     elif c < 0.75:
-      prog.append({'op': 'result', 'acc': rng.randrange(n_acc)})
-      outs.append(n_metric_arrays)
+      i = rng.randrange(n_acc)
+      prog.append({'op': 'result', 'acc': i})
+      outs.append(sim.result(i))
     elif c < 0.95 and any(outs):
       k = rng.choice([i for i, n in enumerate(outs) if n])
       prog.append({'op': 'poke', 'out': k, 'arr': rng.randrange(outs[k]), 'val': rng.choice([0, 1, 5, 7])})
     else:
       prog.append({'op': 'make'})
+      sim.make()
       n_acc += 1
   return prog
 
 
 def gen_cases(ctx):
+  import random
   rng = ctx.rng
   for c in ctx.corpus('C11_heapobs'):
     ctx.count('heapobs:source', 'corpus')
     yield c
   for ad in ADAPTERS.values():
     # small-exhaustive: every sequence of 3 operations from a fixed alphabet after a fixed prefix
-    cfg = dict(thresholds=[{'n': 0, 'd': 1}, {'n': 1, 'd': 2}], metrics=[['precision', None], ['recall', {'n': 1, 'd': 4}], ['f1_score', None]])
-    b = lambda seed: ad.gen_batch(__import__('random').Random(seed), cfg) or ad.gen_batch(__import__('random').Random(seed + 100), cfg)
-    prefix = [{'op': 'make'}, {'op': 'make'}, {'op': 'add', 'acc': 0, 'batch': b(1)}, {'op': 'add', 'acc': 1, 'batch': b(2)}]
+    # (three accumulators: 0 and 1 updated once, 2 never updated)
+    cfg = ad.fixed_cfg()
+    b = lambda seed: ad.gen_batch(random.Random(seed), cfg) or ad.gen_batch(random.Random(seed + 100), cfg)
+    prefix = [{'op': 'make'}, {'op': 'make'}, {'op': 'make'}, {'op': 'add', 'acc': 0, 'batch': b(1)},
+              {'op': 'add', 'acc': 1, 'batch': b(2)}]
     alphabet = [{'op': 'add', 'acc': 0, 'batch': b(3)}, {'op': 'merge', 'acc': 0, 'other': 1}, {'op': 'merge', 'acc': 1, 'other': 0},
+                {'op': 'merge', 'acc': 2, 'other': 1}, {'op': 'merge', 'acc': 2, 'other': 0},
                 {'op': 'result', 'acc': 0}, {'op': 'result', 'acc': 1}, 'poke-last', 'poke-first']
     for seq in itertools.product(alphabet, repeat=3):
-      prog, outs = list(prefix), [3, 3]
-      for op in seq:
+      sim = ad.Sim(cfg)
+      prog, outs = [], []
+      for op in prefix + list(seq):
         if isinstance(op, str):
-          k = len(outs) - 1 if op == 'poke-last' else 0
-          if outs[k] == 0:
+          live = [k for k, n in enumerate(outs) if n]
+          if not live:
             continue
+          k = live[-1] if op == 'poke-last' else live[0]
           prog.append({'op': 'poke', 'out': k, 'arr': outs[k] - 1 if op == 'poke-last' else 0, 'val': 7})
-        else:
-          prog.append(op)
-          if op['op'] == 'add':
-            outs.append(3)
-          elif op['op'] == 'result':
-            outs.append(2)
+          continue
+        prog.append(op)
+        if op['op'] == 'make':
+          sim.make()
+        elif op['op'] == 'add':
+          outs.append(sim.add(op['acc']))
+        elif op['op'] == 'merge':
+          sim.merge(op['acc'], op['other'])
+        elif op['op'] == 'result':
+          outs.append(sim.result(op['acc']))
       ctx.count('heapobs:source', 'exhaustive')
+      ctx.count('heapobs:class', ad.name)
       yield dict(cls=ad.name, prog=prog, **cfg)
-    n = 250 if ctx.quick else 8000
+    n = 200 if ctx.quick else 8000
     for i in range(n):
       cfg = ad.gen_cfg(rng)
-      malformed = rng.random() < 0.1
+      malformed = ad is ThrAdapter and rng.random() < 0.1
       prog = _random_prog(rng, ad, cfg, rng.randrange(4, 13), malformed)
       ctx.count('heapobs:source', 'malformed' if malformed else 'random')
+      ctx.count('heapobs:class', ad.name)
       for op in prog:
         ctx.count('heapobs:op', op['op'])
       yield dict(cls=ad.name, prog=prog, **cfg)
@@ -414,14 +555,17 @@ def shrink(case, fails):
 
 
 class C11:
-  LEAN_MODULES = ['MlModel.Properties.C11.RetrievalThrHeap']
+  LEAN_MODULES = ['MlModel.Properties.C11.RetrievalThrHeap', 'MlModel.Properties.C11.ClassificationStateHeap']
   TRUSTED = TRUSTED
   ASSUMPTIONS = ASSUMPTIONS
-  RULE = ('heapobs [ThresholdedRetrieval]: programs of make / add / merge / result / poke (the caller overwrites an array of '
-          'a value it was handed) over 2-4 accumulators: every sequence of 3 operations from a 7-letter alphabet after a '
-          'fixed prefix, then random programs of 4-12 operations (10% with an add the matcher rejects); after EVERY operation '
-          'the partition of all public and returned arrays into "same memory" classes and their contents are compared with '
-          'the heap model; non-trivial = contains a merge and a result or poke; distinct = distinct canonical case JSON')
+  RULE = ('heapobs [ThresholdedRetrieval; ConfusionMatrixAggFn state API (binary / macro / micro, explicit vocabulary)]: programs '
+          'of make / add / merge / result / poke (the caller overwrites an array of a value it was handed: a batch object, a '
+          'result array, the previous state object of update_state) over 2-5 accumulators: corpus, then every sequence of 3 '
+          'operations from a 9-letter alphabet after a fixed prefix (two updated accumulators and a never-updated one), then '
+          'random programs of 4-12 operations (ThresholdedRetrieval: 10% with an add the matcher rejects); after EVERY '
+          'operation the partition of all public and returned arrays into same-memory classes and their contents are '
+          'compared with the heap model; non-trivial = contains a merge and a result or poke; distinct = distinct canonical '
+          'case JSON')
   gen_cases = staticmethod(gen_cases)
   run_impl = staticmethod(run_impl)
   model_requests = staticmethod(model_requests)
